@@ -26,19 +26,16 @@ func newMIDPool(min, max int32) midPool {
 	return &simpleMidPool{
 		min: min,
 		max: max,
+		// intervals are half-open: (from, to]. Everything is free at start.
+		intervals: []interval{{from: min - 1, to: max}},
 	}
 }
 
+// Get returns a free identifier, or -1 when every identifier is handed out.
 func (m *simpleMidPool) Get() int32 {
 	m.mtx.Lock()
 	defer m.mtx.Unlock()
 	if len(m.intervals) == 0 {
-		m.intervals = []interval{
-			{from: m.min, to: m.max},
-		}
-		return m.min
-	}
-	if m.intervals[0].from == m.max {
 		return -1
 	}
 	m.intervals[0].from++
@@ -48,6 +45,8 @@ func (m *simpleMidPool) Get() int32 {
 	}
 	return v
 }
+
+// Put makes mid available again. Releasing an identifier that is free or out of range is a no-op.
 func (m *simpleMidPool) Put(mid int32) {
 	if mid < m.min || mid > m.max {
 		return
@@ -55,43 +54,27 @@ func (m *simpleMidPool) Put(mid int32) {
 	m.mtx.Lock()
 	defer m.mtx.Unlock()
 
+	// first interval that ends at or after mid
 	idx := sort.Search(len(m.intervals), func(i int) bool {
-		return m.intervals[i].from >= mid
+		return m.intervals[i].to >= mid
 	})
-	if idx < len(m.intervals) && (m.intervals[idx].from < mid && m.intervals[idx].to >= mid) {
+	if idx < len(m.intervals) && m.intervals[idx].from < mid {
+		// already free
 		return
 	}
-
-	if idx == len(m.intervals) {
-		if m.intervals[idx-1].from < mid && m.intervals[idx-1].to >= mid {
-			return
-		}
-		if m.intervals[idx-1].to == mid-1 {
-			m.intervals[idx-1].to++
-		} else {
-			if mid > m.intervals[idx-1].to {
-				m.intervals = append(m.intervals, interval{from: mid - 1, to: mid})
-			} else {
-				m.intervals = append(m.intervals[:idx-1], interval{from: mid - 1, to: mid}, m.intervals[idx-1])
-			}
-		}
-	} else if idx > 0 && idx != len(m.intervals) {
-		if m.intervals[idx].to == mid-1 {
-			m.intervals[idx].to++
-		} else if m.intervals[idx-1].to == mid-1 {
-			m.intervals[idx-1].to++
-			if m.intervals[idx-1].to == m.intervals[idx].from {
-				m.intervals[idx].from = m.intervals[idx-1].from
-				m.intervals = append(m.intervals[:idx-1], m.intervals[idx:]...)
-			}
-		} else {
-			m.intervals = append(m.intervals[:idx], append([]interval{{from: mid - 1, to: mid}}, m.intervals[idx:]...)...)
-		}
-	} else {
-		if m.intervals[0].from == mid {
-			m.intervals[idx].from--
-		} else {
-			m.intervals = append([]interval{{from: mid - 1, to: mid}}, m.intervals...)
-		}
+	left := idx > 0 && m.intervals[idx-1].to == mid-1
+	right := idx < len(m.intervals) && m.intervals[idx].from == mid
+	switch {
+	case left && right:
+		m.intervals[idx-1].to = m.intervals[idx].to
+		m.intervals = append(m.intervals[:idx], m.intervals[idx+1:]...)
+	case left:
+		m.intervals[idx-1].to = mid
+	case right:
+		m.intervals[idx].from = mid - 1
+	default:
+		m.intervals = append(m.intervals, interval{})
+		copy(m.intervals[idx+1:], m.intervals[idx:])
+		m.intervals[idx] = interval{from: mid - 1, to: mid}
 	}
 }
